@@ -205,12 +205,42 @@ validations:
 `,
 }
 
+func init() {
+	c15Bases = append(c15Bases,
+		// 4: a custom domain property (annotation) reached through a user prefix bound to the api-extension namespace
+		`profile: c15 custom domain property
+prefixes:
+  ext: http://a.ml/vocabularies/api-extension#
+  ex: http://ex.org/
+violation:
+  - ann
+  - plain
+validations:
+  ann:
+    message: wadus annotation needs p4
+    targetClass: ex.T
+    propertyConstraints:
+      ext.wadus / ex.p4:
+        minCount: 1
+  plain:
+    message: plain
+    targetClass: ex.T
+    propertyConstraints:
+      ex.p1:
+        minCount: 1
+`)
+}
+
+const apiExtNS = "http://a.ml/vocabularies/api-extension#"
+const coreNS = "http://a.ml/vocabularies/core#"
+
 // c15Data: one graph exercised by all base profiles.
 func c15Graph() *Graph {
 	g := &Graph{}
 	for kind := 0; kind < 4; kind++ {
 		n := g.Add(fmt.Sprintf("%sc%d", EX, kind), EX+"C")
 		childKindProps(n, kind)
+		n.P(coreNS+"extensionName", []string{"wadus", "other", "wadus", "wadus"}[kind])
 		if kind >= 2 {
 			n.P(EX+"c", Ref(fmt.Sprintf("%sc%d", EX, kind-2)))
 		}
@@ -236,6 +266,12 @@ func c15Graph() *Graph {
 		case 3:
 			n.P(EX+"c", Ref(EX+"c1"), Ref(EX+"c2"), Ref(EX+"c3"))
 			n.P(EX+"d", Ref(EX+"c0"))
+		}
+		if m >= 2 {
+			// an annotation: the property named by the annotation's id links to the value node
+			ann := fmt.Sprintf("%sann%d", EX, m)
+			n.P(docNS+"customDomainProperties", Ref(ann))
+			n.P(ann, Ref(fmt.Sprintf("%sc%d", EX, m%4)))
 		}
 		switch m % 3 {
 		case 0:
@@ -372,8 +408,10 @@ func c15Successors(s c15State) []c15Succ {
 			old := prefixes.Content[i].Value
 			ns := prefixes.Content[i+1].Value
 			targets := []string{"zz9"}
-			if ns == shapesNS {
-				targets = append(targets, "shapes", "raml-shapes")
+			for _, dn := range []string{"shapes", "raml-shapes", "apiExt", "core", "doc"} {
+				if c15Defaults[dn] == ns {
+					targets = append(targets, dn)
+				}
 			}
 			for _, nw := range targets {
 				if nw == old {
@@ -388,7 +426,8 @@ func c15Successors(s c15State) []c15Succ {
 				if taken {
 					continue
 				}
-				o, w, isDefault := old, nw, nw == "shapes" || nw == "raml-shapes"
+				_, isDef := c15Defaults[nw]
+				o, w, isDefault := old, nw, isDef
 				mut(fmt.Sprintf("rename prefix %s->%s", o, w), func(r *yaml.Node) {
 					var rec func(n *yaml.Node, inPrefixes bool)
 					rec = func(n *yaml.Node, inPrefixes bool) {
@@ -447,7 +486,7 @@ func c15Successors(s c15State) []c15Succ {
 // c15Canon decodes a profile text and returns a canonical rendering that is
 // invariant exactly under the rewrites above: compact IRIs expanded with the
 // declared + default prefixes, lists sorted, maps unordered, prefixes dropped.
-var c15Defaults = map[string]string{"shapes": shapesNS, "raml-shapes": shapesNS}
+var c15Defaults = map[string]string{"shapes": shapesNS, "raml-shapes": shapesNS, "apiExt": apiExtNS, "core": coreNS, "doc": docNS}
 
 func c15Canon(text string) (string, error) {
 	var v any
@@ -566,7 +605,7 @@ func c15Run(c *Ctx, cs c15Case) {
 		c.Violate("C15 base profile rejected: "+firstLine(r0.ErrString()), baseText, nil)
 		return
 	}
-	if strings.Count(baseVerdict, "|") < 6 {
+	if strings.Count(baseVerdict, "|") < 6 || (cs.Profile == 4 && !strings.Contains(baseVerdict, "|ann|")) {
 		panic("harness: C15 base profile produces too few results: " + baseVerdict)
 	}
 	check := func(st c15State, trace []string) {
